@@ -507,6 +507,25 @@ def run(chk):
                            % (b.key, fe.loc, c.callee.get("name"), c.loc)), [fe.loc, c.loc], fe.loc
         chk.ob("C13.R5.errors:%s" % re.sub(r"<'[a-z_]+(, [A-Z])*>|<[A-Z]>", "", b.key), ERR_DOC, f)
 
+        def g(b=b, fe=fe, cb=cb, closers=closers):
+            ok, how = error_reaches_caller(b, fe, cb, closers)
+            if ok and b.crate == "emit_otlp":
+                # the OTLP encoders treat streaming as infallible and unwrap its result on the emitting thread (allow rows of the panic
+                # inventory: "fails only if a Value impl invents an error") - that is only true while a property's own error cannot get there
+                for k2, b2 in sorted(P.bodies.items()):
+                    if b2.crate == "emit_otlp" and re.search(r"as emit_otlp::data::RawEncoder>::encode($|::\{closure)", k2):
+                        for c2 in b2.calls(normal_only=True):
+                            if c2.callee.get("name") in ("unwrap", "expect") and c2.args:
+                                src = b2.origin(c2.args[0])
+                                if src[0] == "call" and src[1].callee.get("name") in ("stream", "stream_to_string", "stream_to_fmt", "stream_to_vec", "stream_to_protobuf"):
+                                    return False, ("%s hands a property's own stream error (a Display / Serialize / sval::Value impl that fails) on to its caller, "
+                                                   "but %s still %ss the streaming result at %s: the failure becomes a panic on the thread that emitted the event"
+                                                   % (b.key, k2, c2.callee.get("name"), c2.loc)), [fe.loc, c2.loc], c2.loc
+            return True, "", [how or "the error is not handed on"]
+        if b.crate == "emit_otlp":
+            chk.ob("C13.R5.errors-unwrapped:%s" % re.sub(r"<'[a-z_]+(, [A-Z])*>|<[A-Z]>", "", b.key),
+                   "a property's stream error that is handed on to the caller does not meet an unwrap / expect in the OTLP encoders (no panic on the emitting thread)", g)
+
 
     # ---- R5: the "needs no escaping" hint is only ever put on constant identifier labels ------------------------------
     def ident_tags():
@@ -885,6 +904,7 @@ def run(chk):
                                       "encodings denote the same records only if neither is mislabelled)",
                                       lambda b: b.crate == "emit_otlp" and "generated" not in b.file and "::tests::" not in b.key, ("Proto", "Json"), 8)
     tag_overrides_rule(chk, P, "C13.R4:tag-overrides")
+    points_declined_rule(chk, P, "C13.R8:declined-only-when-empty")
     return chk
 
 
@@ -999,3 +1019,45 @@ def schema_rule(chk, P):
     else:
         chk.ok("C13.R3:schema", "every hand-written (label, index) pair names a field of the official OTLP schema with that tag "
                "and JSON name (%d pairs against %d official fields)" % (total, n_off), sites=["%d pairs" % total])
+
+
+def points_declined_rule(chk, P, key):
+    """A metric sample goes to the metrics signal unless its encoder *declines* it, in which case it is exported as a log record: `into_points`
+    returning None is that decision.  The only sample without a data point is one without numbers: every path of every `into_points` that returns
+    None took the zero edge of a test of the points' count (or the true edge of is_empty) and depends on nothing else - not on the extent, the
+    step width or the values."""
+    def f():
+        ev, m = [], 0
+        for k, b in sorted(P.bodies.items()):
+            if b.crate != "emit_otlp" or b.is_closure or b.method != "into_points" or not (b.trait or "").endswith("DataPointBuilder") or b.trait_default:
+                continue
+            m += 1
+            for rb in b.return_blocks():
+                for path in b.acyclic_paths(0, rb, limit=4000):
+                    ps = mir.PathSummary(b, path)
+                    r = ps.ret()
+                    if not (r[0] == "agg" and r[1].get("variant") == "None"):
+                        continue
+                    empty_seen = False
+                    for sbb, o, vals in ps.decisions():
+                        x = o
+                        while x[0] in ("cast", "copy", "unop"):
+                            x = x[1] if x[0] != "unop" else x[2]
+                        vs = tuple(str(v) for v in (vals if isinstance(vals, (list, tuple)) else (vals,)))
+                        if x[0] == "call" and x[1].callee.get("name") == "len" and vs == ("0",):
+                            empty_seen = True
+                        elif x[0] == "call" and x[1].callee.get("name") == "is_empty" and "0" not in vs:
+                            empty_seen = True
+                        elif x[0] == "binop" and x[1] == "Eq" and any(y[0] in ("call", "cast") and "len" in mir.o_str(y) for y in (x[2], x[3])) \
+                                and any(mir.o_const_value(y) == 0 for y in (x[2], x[3])) and "0" not in vs:
+                            empty_seen = True
+                        else:
+                            return False, ("%s declines a sample (returns None) on a path that depends on %s (branch in bb%d): a metric sample that has "
+                                           "numeric points would be exported as a log record instead of a metric" % (k, mir.o_str(o)[:100], sbb)), [], b.span
+                    if not empty_seen:
+                        return False, "%s declines a sample without having found it empty" % k, [], b.span
+            ev.append(b.span)
+        if m < 2:
+            raise mir.AnchorMissing("into_points impls (found %d)" % m)
+        return True, "", ev
+    chk.ob(key, "a metric sample is declined by its encoder (and falls back to logs) only when it has no numeric point", f)
